@@ -24,12 +24,12 @@ type regRow struct {
 }
 
 type regTable struct {
-	G      *ssa.Global
-	Reg    *ssa.Function
-	Rows   []regRow
-	OK     bool
-	Why    string
-	NKeys  int
+	G     *ssa.Global
+	Reg   *ssa.Function
+	Rows  []regRow
+	OK    bool
+	Why   string
+	NKeys int
 }
 
 func (w *World) regTableOf(g *ssa.Global) *regTable {
